@@ -177,6 +177,15 @@ def do_slice(ex, base, lo, hi, step, st):
             n_ = z3.Length(base.z)
             a_ = z3.IntVal(0) if lo is None else lo
             b_ = n_ if hi is None else hi
+            negc = any(v is not None and z3.is_int_value(z3.simplify(v)) and z3.simplify(v).as_long() < 0 for v in (lo, hi))
+            if getattr(ex, "spec_mode", False) and not getattr(ex, "in_recdef", 0) and not getattr(st, "in_binder", 0) and not getattr(ex, "force_uf", False) and "slice" not in ex.c.opaque and not negc:
+                # a slice written in a CONTRACT: the symbol with its in-range definition only (no clamping case analysis; an out-of-range slice of a
+                # specification is simply left unconstrained, which can only make a proof harder)
+                t = uf(ex, "SLICE", S, I, I, S)(base.z, a_, b_)
+                st.fact(z3.And(z3.Implies(z3.And(0 <= a_, a_ <= b_), z3.And(t == z3.SubString(base.z, a_, b_ - a_), z3.Length(t) == z3.If(b_ <= n_, b_ - a_, z3.If(a_ <= n_, n_ - a_, 0)))),
+                               z3.Implies(z3.And(0 <= b_, b_ < a_), t == z3.StringVal("")),
+                               z3.Implies(z3.Or(a_ < 0, b_ < 0), t == str_slice(base.z, lo, hi))))  # negative bounds: Python's clamping rules
+                return cls(t)
             res = sop(ex, st, "SLICE", [base.z, a_, b_], S, lambda: str_slice(base.z, lo, hi))
             if not getattr(st, "in_binder", 0):
                 ca = z3.IntVal(0) if lo is None else clamp_index(lo, n_)
@@ -228,6 +237,10 @@ def obj_attr(ex, obj, attr, st):
     if obj.cls == "Multidecoder" and attr == "decoders":
         obj.attrs["decoders"] = VObj("registry", {})
         return obj.attrs["decoders"]
+    if obj.cls == "urlsplit" and attr in ("port", "hostname"):
+        from .regexlib import urlsplit_attr
+
+        return urlsplit_attr(ex, obj, attr, st)
     raise Unsupported(f"attribute {attr} of {obj}")
 
 
@@ -712,6 +725,17 @@ def sf_origin(ex, node, st):
     return VInt(pi[j.z])
 
 
+def _url_part(which):
+    def f(ex, node, st):
+        from .regexlib import url_parts
+
+        a = ex.eval(node.args[0], st)
+        v = url_parts(ex, a.z)[which]
+        return VBool(v) if which.startswith("has") else VBytes(v)
+
+    return f
+
+
 def sf_matches(ex, node, st):
     """matches(PATTERN, text): text is in L(PATTERN°) - the language of the real pattern constant, look-arounds erased."""
     from . import regex2smt as R2
@@ -788,6 +812,15 @@ SPEC_FORMS = {
     "hi": sf_hi,
     "alloc": sf_alloc,
     "matches": sf_matches,
+    "url_scheme": _url_part("scheme"),
+    "url_netloc": _url_part("netloc"),
+    "url_path": _url_part("path"),
+    "url_query": _url_part("query"),
+    "url_fragment": _url_part("fragment"),
+    "urlsplit_raises": lambda ex, node, st: VBool(uf(ex, "URLSPLIT_RAISES", S, B)(ex.eval(node.args[0], st).z)),
+    "url_has_netloc": _url_part("hasnl"),
+    "url_has_query": _url_part("hasq"),
+    "url_has_fragment": _url_part("hasf"),
     "origin": sf_origin,
     "canon_quad": sf_canon_quad,
     "latin1_upper": sf_latin1_upper,
